@@ -203,6 +203,9 @@ pub struct ChMux<TransportSink, TransportStream> {
     ports: HashMap<PortNumber, PortState>,
     /// Outstanding requests by the remote endpoint for connecting ports.
     outstanding_remote_port_requests: HashSet<u32>,
+    /// Remote ports of the outstanding requests that were made through the remote client,
+    /// i.e. that are subject to the connect queue length.
+    outstanding_remote_client_requests: HashSet<u32>,
     /// Sender from channels to event loop.
     channel_tx: mpsc::Sender<PortEvt>,
     /// Channel receiver of event loop.
@@ -285,6 +288,7 @@ where
             port_allocator: port_allocator.clone(),
             ports: HashMap::new(),
             outstanding_remote_port_requests: HashSet::new(),
+            outstanding_remote_client_requests: HashSet::new(),
             channel_tx,
             channel_rx: Some(channel_rx),
             terminate_rx: Some(terminate_rx),
@@ -746,6 +750,7 @@ where
                 if !self.outstanding_remote_port_requests.remove(&remote_port) {
                     panic!("Accepted non-outstanding remote port {remote_port} request");
                 }
+                self.outstanding_remote_client_requests.remove(&remote_port);
                 let local_port_num = *local_port;
                 send_msg(
                     permit,
@@ -760,6 +765,7 @@ where
                 if !self.outstanding_remote_port_requests.remove(&remote_port) {
                     panic!("Rejected non-outstanding remote port {remote_port} request");
                 }
+                self.outstanding_remote_client_requests.remove(&remote_port);
                 send_msg(permit, MultiplexMsg::Rejected { client_port: remote_port, no_ports });
             }
 
@@ -896,9 +902,10 @@ where
                         "remote endpoint sent OpenPort request for same remote port {client_port} twice"
                     )));
                 }
-                // The remote endpoint must not have more unanswered requests than the announced queue length,
-                // whether or not a listener is present to take them.
-                if self.outstanding_remote_port_requests.len() > usize::from(self.local_cfg.connect_queue) {
+                // The remote client must not have more unanswered requests than the announced queue length,
+                // whether or not a listener is present to take them. Requests sent over a port do not count.
+                self.outstanding_remote_client_requests.insert(client_port);
+                if self.outstanding_remote_client_requests.len() > usize::from(self.local_cfg.connect_queue) {
                     return Err(protocol_err("remote endpoint sent too many OpenPort requests"));
                 }
                 let req = RemoteConnectMsg::Request(Request::new(
